@@ -748,19 +748,62 @@ func r19Samplers(c *an.Ctx) {
 func r19Capture(c *an.Ctx) {
 	const rule = "R19.7"
 	if f, t := tableOf(c, rule, "http/middleware", "ResponseCapture.WriteHeader", 0); t != nil {
-		ok := len(t.Paths) == 1
-		if ok {
-			p := &t.Paths[0]
-			st, has := lastStore(p, regexp.MustCompile(`^p0\.StatusCode$`))
+		// Derived from the property's wording ("the status actually written"), not from the code: net/http sends the
+		// first final status and ignores later calls. So (a) every path forwards the code, (b) a path that records
+		// stores the code itself, (c) the store is conditional on the recorded status - some path keeps a status
+		// already recorded - and (d) no path overwrites a status it knows to be final (recorded value tested as
+		// non-zero / >= 200 on that path). The unconditional store of the pinned tree was a defect (fixed in /repo).
+		var probs []string
+		stores, keeps := 0, 0
+		for i := range t.Paths {
+			p := &t.Paths[i]
 			fw := false
 			for _, cl := range p.CallEffects() {
 				if cl == "p0.ResponseWriter.WriteHeader(p1)" {
 					fw = true
 				}
 			}
-			ok = has && st == "p1" && fw
+			if !fw {
+				probs = append(probs, "a path does not forward the code to the underlying writer")
+			}
+			st, has := lastStore(p, regexp.MustCompile(`^p0\.StatusCode$`))
+			guarded, nonzero, final, tests := false, false, false, 0
+			for _, a := range p.Atoms {
+				if strings.Contains(a.Term, "p0.StatusCode") {
+					guarded = true
+					tests++
+					if (strings.Contains(a.Term, "== 0") && !a.Val) || (strings.Contains(a.Term, "!= 0") && a.Val) {
+						nonzero = true
+					}
+					if (strings.Contains(a.Term, ">= 200") && a.Val) || (strings.Contains(a.Term, "< 200") && !a.Val) ||
+						(strings.Contains(a.Term, "> 199") && a.Val) || (strings.Contains(a.Term, "<= 199") && !a.Val) {
+						final = true
+					}
+				}
+			}
+			if has && final {
+				probs = append(probs, "a final status already recorded is overwritten")
+			}
+			if !has && guarded && !final && !(nonzero && tests > 1) {
+				// informational codes (100, 103) may be followed by the final one: net/http sends both
+				probs = append(probs, "a recorded status is kept although it is only known to be non-zero: after an informational 1xx the final status that net/http sends is not recorded")
+			}
+			switch {
+			case has && st != "p1":
+				probs = append(probs, "the status recorded is "+st+", not the code forwarded")
+			case has:
+				stores++
+			case guarded:
+				keeps++
+			}
 		}
-		c.Check(ok, rule, f.Name, f.Decl.Pos(), "the status written is the status recorded", "WriteHeader does not record and forward the same code: "+strings.ReplaceAll(t.Dump(), "\n", " "))
+		if stores == 0 {
+			probs = append(probs, "no path records the code")
+		}
+		if keeps == 0 {
+			probs = append(probs, "the recorded status is overwritten unconditionally: a second WriteHeader, which net/http ignores, replaces the status that was sent")
+		}
+		report(c, rule, f.Name, f, probs, "the first final status written is the status recorded; every call is forwarded")
 	}
 	if f, t := tableOf(c, rule, "http/middleware", "ResponseCapture.Write", 0); t != nil {
 		var probs []string
